@@ -77,3 +77,43 @@ def thm_shortcut(t):
     fs2.exclude_files([name])
     raised = expect_raises(NoFilesError, fs2.find_closest, t)
     ensures(raised, id="an excluded file is never the answer (NoFilesError when it is the only file)")
+
+
+# ------------------------------------------------------------------ fileset[t] and fileset[t, filters]
+class _Reader:
+    """opaque handler: what it reads is determined by the file (its path)"""
+
+    def __init__(self):
+        self.reads = []
+
+    def read(self, file_info, **kw):
+        self.reads.append(file_info.path)
+        return ("content of", file_info.path)
+
+
+_Reader.read.__pyvc_thm__ = True
+REG.inline_ok.add(M + "FileSet.__getitem__")
+REG.inline_ok.add(M + "FileSet.read")
+
+
+@theorem(P, "getitem-dispatch", a0=_dt("a0", 2), t=_dt("t", 2))
+def thm_getitem(a0, t):
+    requires(a0.year >= 1000, a0.year <= 9000, t.year >= 1000, t.year <= 9000)
+    # (a sub-directory without temporal placeholder counts as a period of one year in find_closest: keep the file inside it)
+    requires(a0 - t < timedelta(days=300), t - a0 < timedelta(days=300))
+    path = "/data/{satname}/{year}{month}{day}T{hour}{minute}.nc"
+    fs = FileSet(path=path, name="verif", decompress=False)
+    fs.handler = _Reader()
+    na, nb = fs.get_filename(a0, fill={"satname": "noaa"}), fs.get_filename(a0, fill={"satname": "metop"})
+    fs.file_system = GhostFS([na, nb])
+    got = fs[t, {"satname": "metop"}]
+    ensures(got[0] == "content of" and got[1] == nb, id="fileset[t, filters] reads the closest file among those that pass the filters")
+    ensures(len(fs.handler.reads) == 1 and fs.handler.reads[0] == nb, id="... and only that file")
+    other = fs[t, {"satname": "noaa"}]
+    ensures(other[1] == na, id="... for every filter value")
+    single = FileSet(path="/data/{year}{month}{day}T{hour}{minute}.nc", name="verif2", decompress=False)
+    single.handler = _Reader()
+    n1 = single.get_filename(a0)
+    single.file_system = GhostFS([n1])
+    one = single[t]
+    ensures(one[1] == n1, id="fileset[t] reads the file find_closest(t) returns")
